@@ -365,7 +365,44 @@ pub fn parse_snapshot(s: &str) -> Option<Snapshot> {
     Some(Snapshot { nodes: n, init: i, finals, edges })
 }
 
+/// `chars~min~max{nested}` -> (chars, min, max)
+pub fn split_label(g: &str) -> Option<(String, u32, u32)> {
+    let head = g.split('{').next()?;
+    let mut it = head.split('~');
+    let c = it.next()?.to_string();
+    let lo = it.next()?.parse().ok()?;
+    let hi = it.next()?.parse().ok()?;
+    Some((c, lo, hi))
+}
+
 impl Snapshot {
+    /// All accepted sequences of (characters, count), a label {m,n} standing for every count m..=n; None if there are too many.
+    pub fn expanded(&self, cap: usize) -> Option<BTreeSet<Vec<(String, u32)>>> {
+        let mut out = BTreeSet::new();
+        let mut stack: Vec<(usize, Vec<(String, u32)>)> = vec![(self.init, vec![])];
+        let mut steps = 0usize;
+        while let Some((s, path)) = stack.pop() {
+            steps += 1;
+            if steps > cap || path.len() > self.nodes + 1 {
+                return None;
+            }
+            if self.finals.contains(&s) {
+                out.insert(path.clone());
+            }
+            for e in self.out_edges(s) {
+                let (c, lo, hi) = split_label(&e.2)?;
+                if hi < lo || hi - lo > 64 {
+                    return None;
+                }
+                for k in lo..=hi {
+                    let mut p = path.clone();
+                    p.push((c.clone(), k));
+                    stack.push((e.1, p));
+                }
+            }
+        }
+        Some(out)
+    }
     fn out_edges(&self, s: usize) -> Vec<&(usize, usize, String)> {
         self.edges.iter().filter(|e| e.0 == s).collect()
     }
@@ -459,8 +496,28 @@ pub fn judge_stages(case: &Case, dump: &grex::verif_hooks::StageDump) -> Vec<Fai
         fails.push(Fail::new(Kind::Stage, format!("trie language differs from the converted test cases at {:?}", w), None));
     }
     if !simple {
-        // with -r a widened edge stands for several counts; only inclusion is a contract of the trie
-        // (checked at the pattern level by C05)
+        // with -r a widened edge {m,n} stands for the counts m..=n: every converted test case must be one of the count
+        // sequences the trie stands for, and the minimised automaton must stand for exactly the trie's count sequences
+        if let (Some(te), Some(me)) = (trie.expanded(100_000), min.expanded(100_000)) {
+            for w in &words {
+                let seq: Option<Vec<(String, u32)>> = w.iter().map(|g| split_label(g).map(|(c, lo, _)| (c, lo))).collect();
+                if let Some(seq) = seq {
+                    if !te.contains(&seq) {
+                        fails.push(Fail::new(Kind::Stage, format!("the trie does not stand for the converted test case {:?}", w), Some(w.join(" "))));
+                        break;
+                    }
+                }
+            }
+            if te != me {
+                let w = te.symmetric_difference(&me).next().cloned().unwrap_or_default();
+                let shown: Vec<String> = w.iter().map(|(c, k)| format!("{}~{}", c, k)).collect();
+                fails.push(Fail::new(
+                    Kind::Stage,
+                    format!("minimised automaton and trie stand for different count sequences: {:?} is in {} only", shown, if te.contains(&w) { "the trie" } else { "the minimised automaton" }),
+                    Some(shown.join(" ")),
+                ));
+            }
+        }
     }
     let Some(ml) = min.language(200_000) else { return fails };
     if simple && ml != tl {
